@@ -50,14 +50,27 @@ def knownNondeterministic : List SiteKey := [
 
 /-! ### (4) reviewed sites -/
 
+/-- fields that a `DeepCopy` method does not rebuild recursively although they can hold IR
+    structure, and that the language loop may nevertheless live with (none today) -/
+def allowedShallowCopies : List (String × String) := []
+
+/-- the per-language isolation the loop over output languages relies on: every `DeepCopy`
+    method reachable from a run rebuilds every structure-carrying field through a recursive
+    DeepCopy / deepCopyValue call (regenerated facts `Gen.shallowCopies`; the full statement
+    about copies is C18's) -/
+def copiesAreDeep : Bool :=
+  Gen.shallowCopies.all (fun f => f.outsideRun || allowedShallowCopies.contains (f.func, f.what))
+
 structure ReviewedSite where
   key : SiteKey
   needsSort : List SortDep := []
+  needsDeepCopies : Bool := false
   why : String
   deriving Repr
 
 def reviewedSites : List ReviewedSite := [
   { key := ⟨"internal/codegen/run.go", "Pipeline.Run", .range, [.allMustSucceed, .opaqueEffect, .unknown]⟩,
+    needsDeepCopies := true,
     why := "one iteration per output language: `reporter` is progress text (not an output), \
             `ContextForLanguage` works on the schemas returned by `LoadSchemas` and its passes \
             copy before writing, `languageJennies` is created in the iteration, and the files \
@@ -76,10 +89,6 @@ def reviewedSites : List ReviewedSite := [
     why := "objects are inserted into the ordered map in iteration order under their (unique) \
             definition name; the only caller sorts the map by name right after \
             (orderedInsertThenSort across a call)" },
-  { key := ⟨"internal/yaml/compilerpasses.go", "FieldsSetDefault.AsCompilerPass", .range,
-            [.allMustSucceed, .keyedWriteDerived]⟩,
-    why := "the derived key is the triple obtained by splitting the range key on '.', which \
-            is injective on keys that parse (S_keyed_write)" },
   { key := ⟨"helpers.go", "CUEImports", .range, [.appendUnsorted]⟩,
     why := "library API only: the list is turned into a map (`buildLibrariesMap`) and into a \
             merged FS of per-import-path directories whose paths are disjoint for distinct keys" }
@@ -95,7 +104,9 @@ structure CalleeReview where
 
 def reviewedCallees : List CalleeReview := [
   { name := "ast.Comments" }, { name := "ast.NewStructField" }, { name := "ast.NewSchema" },
-  { name := "ast.Type.AsStruct" }, { name := "tools.ItemInList" }, { name := "tools.UpperCamelCase" },
+  { name := "ast.Type.AsStruct" },
+  { name := "ast.deepCopyValue", why := "returns a fresh recursive copy of its argument, writes nothing else" },
+  { name := "compiler.FieldReferenceFromString", why := "pure string split (its injectivity is reviewed separately, pinned to its body)" }, { name := "tools.ItemInList" }, { name := "tools.UpperCamelCase" },
   { name := "ast.Schema.Merge", why := "mutates only the schema created in the same iteration" },
   { name := "orderedmap.Map.Remove", why := "the deleteKeys effect itself" },
   { name := "orderedmap.Map.Set", why := "the orderedInsert effect itself" },
@@ -145,6 +156,30 @@ def reviewedSortKeys : List SortKeyReview := [
     why := "same construction over `schema.Properties` of kin-openapi" }
 ]
 
+/-! ### key derivations: `dst[f(k)] = …`
+
+    A keyed write is admissible only if the index is injective in the range key
+    (`S_keyed_write`, hypothesis `ginj`; `N_keyed_write_collision` is what happens otherwise).
+    The identity is accepted by the extractor; one function application to the key is recorded
+    with the hash of the function's declaration and must be listed here. -/
+
+structure KeyDerivReview where
+  file : String
+  func : String
+  deriv : String
+  why : String
+  deriving Repr
+
+def reviewedKeyDerivations : List KeyDerivReview := [
+  { file := "internal/yaml/compilerpasses.go", func := "FieldsSetDefault.AsCompilerPass",
+    deriv := "defaults[compiler.FieldReferenceFromString(key)] body=0d52225ade2f",
+    why := "splits the key on '.', fails unless there are exactly three parts and returns them \
+            unchanged as (Package, Object, Field): distinct keys that parse give distinct triples" }
+]
+
+def keyDerivOK (s : Site) (d : String) : Bool :=
+  reviewedKeyDerivations.any (fun r => r.file == s.file && r.func == s.func && r.deriv == d)
+
 def sortKeyOK (s : Site) (k : String) : Bool :=
   reviewedSortKeys.any (fun r => r.file == s.file && r.func == s.func && r.key == k)
 
@@ -156,10 +191,12 @@ def calleeOK (c : String) : Bool :=
 def Site.known (s : Site) : Bool := knownNondeterministic.contains s.key
 
 def Site.reviewed (s : Site) : Bool :=
-  reviewedSites.any (fun r => r.key == s.key && r.needsSort.all sortDepHolds)
+  reviewedSites.any (fun r => r.key == s.key && r.needsSort.all sortDepHolds &&
+    (!r.needsDeepCopies || copiesAreDeep))
 
 def Site.proved (s : Site) : Bool :=
-  s.admissible && s.callees.all calleeOK && s.sortKeys.all (sortKeyOK s)
+  s.admissible && s.callees.all calleeOK && s.sortKeys.all (sortKeyOK s) &&
+    s.keyDerivs.all (keyDerivOK s)
 
 def Site.ok (s : Site) : Bool := s.outsideRun || s.proved || s.known || s.reviewed
 
